@@ -85,8 +85,12 @@ def check(rep, tier, seed):
     for k in range(nrand):
         cols, recs = random_callset(rng, p_skip=rng.choice([0.0, 0.05, 0.2]))
         sm = None if rng.random() < 0.15 else random_map(rng, cols)
-        contigs = [("chr1" if i < len(recs) // 2 or rng.random() < 0.5 else "chr1") for i in range(len(recs))]
-        vcf = render_vcf(cols, recs, extra_fields=(k % 3 == 0), dot_fields=(k % 6 == 0))      # a missing GT as '.' or '.:12:30'
+        # two contigs; the second starts at the POS the first ended on (every record is a site of its own)
+        half = len(recs) // 2 if k % 2 == 0 else len(recs)
+        contigs = [("chr1" if i < half else "chr2") for i in range(len(recs))]
+        positions = [(i + 1 if i < half else i - half + max(half, 1)) for i in range(len(recs))]
+        # a missing GT as '.' or '.:12:30'; the other FORMAT values of a sample missing next to a called GT ('0/1:.:30')
+        vcf = render_vcf(cols, recs, extra_fields=(k % 3 == 0), dot_fields=(k % 6 == 0), missing_extra=(k % 9 == 0), contigs=contigs, positions=positions)
         argv = ["create"] + cli_samples_arg(sm)
         mc = "create 0 %s %s - %s" % (",".join(cols), model_samples(sm), model_records(recs))
         jobs.append((argv, vcf)); mcases.append(mc); metas.append(mc)
